@@ -8,7 +8,7 @@ BINOPS = [ast.Add, ast.Sub, ast.Mult, ast.Div, ast.FloorDiv, ast.Mod, ast.Pow, a
           ast.BitOr, ast.BitXor, ast.BitAnd, ast.MatMult]
 UNOPS = [ast.UAdd, ast.USub, ast.Not, ast.Invert]
 CMPOPS = [ast.Eq, ast.NotEq, ast.Lt, ast.LtE, ast.Gt, ast.GtE, ast.Is, ast.IsNot, ast.In, ast.NotIn]
-CONSTS = [0, 1, 2, 7, -3, 1.5, 2j, True, False, None, "", "x", "it's", 'q"q', "a\nb", "\\", "é", b"by", ..., 10**20, "#", "%>", "}"]
+CONSTS = [0, 1, 2, 7, -3, 1.5, 2j, True, False, None, "", "x", "it's", 'q"q', "a\nb", "\\", "é", b"by", ..., 10**6, "#", "%>", "}"]
 
 
 def name(r, pool=NAMES):
@@ -80,7 +80,11 @@ def expr(r, depth, extra=()):
     if k == 6:
         return ast.UnaryOp(op=r.choice(UNOPS)(), operand=sub())
     if k in (7, 8, 9):
-        return ast.BinOp(left=sub(), op=r.choice(BINOPS)(), right=sub())
+        op = r.choice(BINOPS)
+        if op is ast.Pow:
+            # small constant exponents only: towers of powers would not terminate in reasonable time
+            return ast.BinOp(left=sub(), op=op(), right=ast.Constant(value=r.choice([0, 1, 2, 3, -1])))
+        return ast.BinOp(left=sub(), op=op(), right=sub())
     if k == 10:
         return ast.BoolOp(op=r.choice([ast.And, ast.Or])(), values=[sub() for _ in range(r.randint(2, 3))])
     if k == 11:
